@@ -20,7 +20,18 @@ import (
 )
 
 var streamCols = []ColSpec{{"tx", KInt64}, {"x", KInt64}, {"m", KInt64}, {"im", KInt64Mul}, {"s", KString}, {"e", KEnum}, {"b", KBool}, {"rm", KRecordMerge},
-	{"p0", KInt64}, {"p1", KInt64}, {"p2", KInt64}, {"p3", KInt64}, {"p4", KInt64}, {"p5", KInt64}, {"p6", KInt64}, {"p7", KInt64}}
+	{"p0", KInt64}, {"p1", KInt64}, {"p2", KInt64}, {"p3", KInt64}, {"p4", KInt64}, {"p5", KInt64}, {"p6", KInt64}, {"p7", KInt64},
+	{"ni", KInt}, {"ni16", KInt16}, {"ni32", KInt32}, {"nu", KUint}, {"nu16", KUint16}, {"nu32", KUint32}, {"nu64", KUint64}, {"nf32", KFloat32}, {"nf64", KFloat64}}
+
+var streamNumCols = func() []ColSpec {
+	var out []ColSpec
+	for _, c := range streamCols {
+		if len(c.Name) > 1 && c.Name[0] == 'n' {
+			out = append(out, c)
+		}
+	}
+	return out
+}()
 
 var streamIdx = []IndexSpec{{Name: "m_odd", Col: "m", P: Pred{Op: "int>=", I: 1000}}, {Name: "x_neg", Col: "x", P: Pred{Op: "int<", I: 0}}}
 
@@ -231,6 +242,11 @@ func streamWorkload(w *W, idx int, writers, txnsPer int, snapshots int) *streamR
 							}
 							if rng.Intn(5) == 0 {
 								ws = append(ws, Write{Col: "s", Merge: true, V: Val{S: fmt.Sprintf("t%d", tx)}})
+							}
+							if rng.Intn(2) == 0 {
+								// a merge on a column of one of the other numeric kinds (small deltas: exact in float32)
+								nc := streamNumCols[rng.Intn(len(streamNumCols))]
+								ws = append(ws, addK(nc.Name, nc.Kind, int64(1+rng.Intn(3))))
 							}
 							if rng.Intn(3) == 0 {
 								// order-sensitive record merge (user merge function, decode/merge/encode) - rows of all three blocks
